@@ -840,12 +840,9 @@ def check_indexed(res, w, ix, idx, tier, full, case0, phase):
             psym = None if stat_equal(stat, d.compute_statistic(stat, pcid, **pkw), exp, empty) else 'wrong'
         except Exception as e:
             psym = 'raises:%s' % type(e).__name__
-        if psym == sym:
-            # IndexedData is faithful to its parent; the deviation from the definition is Data.compute_statistic's
-            # (property C10), reachable here because IndexedData always passes a view containing integers
-            res.count('indexed_stat_deviations_identical_on_parent_compute_statistic__C10__%s|%s|%s|%s'
-                      % ('pixel-or-world' if name[:3] in ('pix', 'wor') else 'values', sk, axk, sym))
-            return
+        # (an earlier version only COUNTED deviations that the parent's compute_statistic shows as well for the
+        # translated request; the statement compares with the slice of the parent by definition, so they are
+        # violations - the detail says whether the parent deviates in the same way)
         viol('indexed-statistic', 'stat|%s|%s|%s' % (sk, axk, sym), extra, got, jl(exp),
              'parent.compute_statistic with the translated view: %s' % (psym or 'correct'))
 
